@@ -313,6 +313,9 @@ def run(ctx) -> None:
     ctx.rule("C15.R8-key-normalisation-in-sorted-order", "a loop that re-keys a mapping in place under a normalised key (D[k.lower()] = D[k]; del D[k]) "
              "iterates the keys in sorted order: when two keys collide after normalisation the survivor must not depend on the order in "
              "which the document lists them")
+    ctx.rule("C15.R9-scope-per-component", "components are visited in the order of a SET of identifiers (hash-seed dependent); that is harmless only "
+             "while nothing is carried from one component to the next: the substitution scope that receives a component's variables in "
+             "FlowIRConcrete.instance is created inside the loop over the components (shared rule with C04.R12)")
     ctx.rule("C15.R5-single-pass-expansion-not-loop-carried", "a single-pass substitution (Template.safe_substitute wrappers such as "
              "expand_vars) applied while iterating a mapping never uses as its context a mapping that is stored into in the same "
              "loop: otherwise values seen by later keys depend on the key order of the (equal) input document")
@@ -519,6 +522,11 @@ def run(ctx) -> None:
                % (n_fn, sorted({a for _, _, a in scalar_memos}) or "none"), construct="class-level state of the load path is immutable")
     ctx.floor("C15.R6-no-process-wide-memo", n_fn, 500, "functions of the load-path modules inspected")
 
+    from checks.c04 import check_scope_per_item
+    n9 = check_scope_per_item(ctx, ctx.repo.module(FLOWIR), "C15.R9-scope-per-component",
+                              "the components of a stage are visited in set order, so which sibling's variables a reference picks up - and with it the "
+                              "resolved arguments and the memoization hash - depends on PYTHONHASHSEED")
+    ctx.floor("C15.R9-scope-per-component", n9, 1, "per-component updates of a substitution scope in FlowIRConcrete.instance")
     check_module_memos(ctx, "C15.R6-no-process-wide-memo",
                        "the same package and options resolve differently than in a fresh process once the memo holds something stale")
 
